@@ -223,6 +223,14 @@ CFG = {
             "loaded first / above it: forward reference, the container is deferred to the second pass and must still be unpacked) x FILE order (holder written before / after its stream: offset order vs number order) x family (one container + one stream; "
             "three containers in one file - forward, backward and direct /Length; a holder that is itself a MEMBER of another object stream - of the ordinary stream: well formed, refused by the code = known class length-holder-in-objstm; of the container: "
             "not a well-formed document (ISO 32000-1 7.5.7), refused or exact load accepted); oracle DocSpec.resolve: every member defined with its value; "
+            "SIZE SWEEP of the bytes AROUND the document (`garb`, added after the missed seed C03_7: the magic accepted only within the first 1024 bytes): for every seed a fixed sweep, independent of n - every length 0, 1, ..., 40, then 63, 64, 65, 127, 128, 255, 256, 511, 512, 1000, "
+            "1019, 1020, 1021, 1023, 1024, 1025, 2047, 2048, 4095, 4096, 4097, 8192, 65535, 65536, 70000 (thorough: + 1000000, and four rounds) of filler at each of three places, one at a time: BEFORE THE HEADER (leading garbage), in the GAP between the last cross-reference section and `startxref`, AFTER THE LAST %%EOF "
+            "(the end-to-end theorems allow all three: ClassicFile / XrefStreamFile / HybridFile fields garbage, gap, trail), plus per size one case with all three places filled (different sizes up to 8192); around 4 documents per size: the purpose-built `sys` control (plain objects, "
+            "streams with direct / backward / FORWARD referenced /Length, an object stream where the layout has one) as classic table, cross-reference stream + object stream, hybrid, and a random `doc` document; filler kinds rotating with size, document and seed: zeros; pseudo-random bytes without `%`; "
+            "text with look-alikes of everything the loader searches (`%PDF` without the dash incl. directly before the real header, `%%EOF`, `startxref`, xref, trailer); an earlier PDF whose first bytes were cut off (objects, table, trailer, startxref, %%EOF); after the last %%EOF look-alikes without `%%EOF` "
+            "(`%%EO`, `%EOF`, `startxref`, even `%PDF-1.7`); white space + comment. The case line carries the document and the description (kind, length) x 3 - the Rust harness (loader_common.rs case_bytes) and the Lean driver (garbFile) expand it alike; oracle DocSpec.resolve of the document (the filler changes nothing) "
+            "AND the header offset reported by FileInfo::file_offset(0) = length of the leading filler (class wrong-header-offset); files above 100000 bytes are oracle-only (`nomodel`: the byte-list model's scans recurse once per byte); 855 cases per seed; corpus/C03/garbage_size_sweep.case: the tiny classic document and the tiny "
+            "hybrid file with an object stream behind 1019 / 1020 / 1024 / 1025 / 4096 leading bytes, with 1019-1025 trailing bytes, 1020 / 1024 gap bytes, spelled out; "
             "every 4th document again with the offsets of two in-use "
             "entries exchanged (must be rejected); every 2nd with one corruption (truncate, alter/delete/insert a byte, replace a number by an extreme "
             "one, cut the middle) judged for correspondence and no panic. Oracle = DocSpec.resolve on what the encoder wrote (never the model); it also "
